@@ -921,11 +921,16 @@ func genTableCase(rng *rand.Rand, st *Stats) []string {
 				continue
 			}
 			ops = append(ops, fmt.Sprintf("concat %d", rev), "crewind")
-			for i := 0; i < len(flat)+1; i++ {
+			// n-1 steps reach the last entry, one more invalidates; a further Next would
+			// dereference the nil current iterator (panic), which retires the iterator.
+			for i := 0; i < len(flat); i++ {
+				ops = append(ops, "cnext")
+			}
+			if rng.Intn(4) == 0 {
 				ops = append(ops, "cnext")
 			}
 			for _, p := range tblProbeKeys(rng, flat, 6) {
-				ops = append(ops, "cseek "+hx(p))
+				ops = append(ops, fmt.Sprintf("concat %d", rev), "cseek "+hx(p))
 				for j := rng.Intn(4); j > 0; j-- {
 					ops = append(ops, "cnext")
 				}
@@ -936,7 +941,7 @@ func genTableCase(rng *rand.Rand, st *Stats) []string {
 				if rng.Intn(2) == 0 {
 					b = es[0].key
 				}
-				ops = append(ops, "cseek "+hx(b), "cnext")
+				ops = append(ops, fmt.Sprintf("concat %d", rev), "cseek "+hx(b), "cnext")
 			}
 		}
 	}
